@@ -707,6 +707,14 @@ class FieldsJson(FieldValueBase):
         ])).encode('ascii')
 
 
+def get_attribute_default(attribute):
+    default = attribute.default
+    if isinstance(default, attr.Factory):
+        default = default.factory()
+
+    return default
+
+
 class FieldValueMultiple(FieldValueBase):
     @classmethod
     @abc.abstractmethod
@@ -728,7 +736,7 @@ class FieldValueMultiple(FieldValueBase):
                 if attribute.default == attr.NOTHING:
                     raise InvalidValue(None, cls, name)
 
-                component = attribute.default
+                component = get_attribute_default(attribute)
 
             if attr_to_component_name_dict[name].get_canonical_name() in components:
                 parsable = components.pop(attr_to_component_name_dict[name].get_canonical_name())
@@ -738,7 +746,7 @@ class FieldValueMultiple(FieldValueBase):
                     parsable = '='.join([attr_to_component_name_dict[name].get_canonical_name(), parsable])
                 params[name] = attr_to_component_name_dict[name].parse_exact_size(six.ensure_binary(parsable, 'ascii'))
             else:
-                params[name] = attribute.default
+                params[name] = get_attribute_default(attribute)
 
     @classmethod
     def _parse_extensions(cls, attr_to_component_name_dict, extension, components, params):
